@@ -203,7 +203,8 @@ func CheckC09(e *Env) int {
 	for arity := 2; arity <= 4; arity++ {
 		for i := 0; i < arity; i++ {
 			for j := i + 1; j < arity; j++ {
-				for _, viaAlias := range []bool{false, true} {
+				for _, dk := range dupKinds {
+					viaAlias := dk == "alias"
 					n++
 					b := NewPB(fmt.Sprintf("sg%04d", n), "app")
 					var ps []*Ty
@@ -215,11 +216,17 @@ func CheckC09(e *Env) int {
 								a := b.P.NewDecl(0, "AliasT", t, "")
 								a.Alias = true
 								t = Named(a)
+							} else {
+								// written out a second time: a structurally identical, separately built type
+								t = dupKindOf(dk, ps[i].dupBase())
 							}
 							ps = append(ps, t)
 							continue
 						}
 						t := b.Carrier(0, "")
+						if k == i {
+							t = dupKindOf(dk, t)
+						}
 						ps = append(ps, t)
 						f := b.Func(0, "", t, false, false)
 						f.Stub = true
@@ -230,7 +237,7 @@ func CheckC09(e *Env) int {
 					f.Stub = true
 					items = append(items, f)
 					b.Inj("Init", u, false, false, nil, refs(items...)...)
-					cell := fmt.Sprintf("dup-param/arity=%d/pos=%d,%d/alias=%v", arity, i, j, viaAlias)
+					cell := fmt.Sprintf("dup-param/arity=%d/pos=%d,%d/kind=%s", arity, i, j, dk)
 					b.P.Note = cell
 					cases = append(cases, &RejectCase{P: b.P, Class: "dup-param", MustName: []string{DiagName(b.P, ps[i])}, Cell: cell})
 				}
@@ -301,16 +308,22 @@ func CheckC09(e *Env) int {
 		{"by-name-other-prevented", []string{"A"}, false, false, `wire:"-"`, true},
 		{"literal-form", nil, false, true, "", false},
 	} {
-		for _, otherPkg := range []bool{false, true} {
+		for ci, dk := range dupKinds {
+			otherPkg := ci%2 == 1
+			if dk == "alias" {
+				continue
+			}
 			n++
 			b := NewPB(fmt.Sprintf("sg%04d", n), "app", "libs")
 			pkg := 0
 			if otherPkg {
 				pkg = 1
 			}
-			t := b.Carrier(pkg, "Dup")
+			base := b.Carrier(pkg, "Dup")
+			t := dupKindOf(dk, base)
+			t2 := dupKindOf(dk, base) // the second field's type is written out again
 			c := b.Carrier(pkg, "Other")
-			s := b.NamedOf(pkg, "S", StructOf(FieldT{Name: "C", Ty: c}, FieldT{Name: "A", Ty: t}, FieldT{Name: "B", Ty: t, Tag: v.dupTag}), "none")
+			s := b.NamedOf(pkg, "S", StructOf(FieldT{Name: "C", Ty: c}, FieldT{Name: "A", Ty: t}, FieldT{Name: "B", Ty: t2, Tag: v.dupTag}), "none")
 			ft := b.Func(pkg, "NewDup", t, false, false)
 			fc := b.Func(pkg, "NewOther", c, false, false)
 			ft.Stub, fc.Stub = true, true
@@ -325,7 +338,7 @@ func CheckC09(e *Env) int {
 				items = append(items, fc)
 			}
 			b.Inj("Init", s, false, false, nil, refs(items...)...)
-			cell := fmt.Sprintf("dup-field/%s/otherpkg=%v", v.name, otherPkg)
+			cell := fmt.Sprintf("dup-field/%s/kind=%s/otherpkg=%v", v.name, dk, otherPkg)
 			b.P.Note = cell
 			if v.legal {
 				cases = append(cases, &RejectCase{P: b.P, Control: true, Cell: "legal:" + cell})
@@ -336,4 +349,40 @@ func CheckC09(e *Env) int {
 	}
 	runRejectCases(e, rep, cases, "c09")
 	return rep.Finish(t0)
+}
+
+// dupKinds: how a duplicated parameter / field type is built from a named base type.
+var dupKinds = []string{"named", "alias", "ptr", "slice", "map", "func", "chan", "array", "ptr-ptr"}
+
+func dupKindOf(kind string, base *Ty) *Ty {
+	switch kind {
+	case "ptr":
+		return PtrTo(base)
+	case "slice":
+		return SliceOf(base)
+	case "map":
+		return MapOf(Basic("string"), base)
+	case "func":
+		return FuncRet(base)
+	case "chan":
+		return ChanOf("", base)
+	case "array":
+		return ArrayOf(2, base)
+	case "ptr-ptr":
+		return PtrTo(PtrTo(base))
+	}
+	return base
+}
+
+// dupBase strips the wrapper dupKindOf added.
+func (t *Ty) dupBase() *Ty {
+	for t.K != "named" {
+		switch t.K {
+		case "ptr", "slice", "chan", "array", "map", "func":
+			t = t.Elem
+		default:
+			return t
+		}
+	}
+	return t
 }
